@@ -135,4 +135,33 @@ theorem placeAt_getElem {α} [BEq α] [LawfulBEq α] {l : List α} {x : α} (hx 
   rw [List.getElem?_append_right (by omega)]
   simp [ht]
 
+theorem isEmpty_eq_of_perm {α} {l₁ l₂ : List α} (hp : l₁.Perm l₂) : l₁.isEmpty = l₂.isEmpty := by
+  cases l₁ <;> cases l₂ <;> simp_all
+
+mutual
+theorem render_sorted_eq_val {π₁ π₂ : List String → List String} (h₁ : HashOrder π₁)
+    (h₂ : HashOrder π₂) : ∀ v : PyVal, render true π₁ v = render true π₂ v
+  | .atom t => by simp [render]
+  | .list es => by simp only [render, render_sorted_eq_all h₁ h₂ es]
+  | .tuple es => by simp only [render, render_sorted_eq_all h₁ h₂ es]
+  | .set es => by
+    have hp : (π₁ (renderAll true π₂ es)).Perm (π₂ (renderAll true π₂ es)) :=
+      (h₁ _).trans (h₂ _).symm
+    simp only [render, render_sorted_eq_all h₁ h₂ es, isEmpty_eq_of_perm hp, if_true,
+      sortNames_eq_of_perm hp]
+  | .dict ks vs => by
+    simp only [render, render_sorted_eq_all h₁ h₂ ks, render_sorted_eq_all h₁ h₂ vs]
+theorem render_sorted_eq_all {π₁ π₂ : List String → List String} (h₁ : HashOrder π₁)
+    (h₂ : HashOrder π₂) : ∀ vs : List PyVal, renderAll true π₁ vs = renderAll true π₂ vs
+  | [] => by simp [renderAll]
+  | v :: vs => by
+    simp only [renderAll, render_sorted_eq_val h₁ h₂ v, render_sorted_eq_all h₁ h₂ vs]
+end
+
+theorem render_sorted_eq {π₁ π₂ : List String → List String} (h₁ : HashOrder π₁)
+    (h₂ : HashOrder π₂) :
+    (∀ v : PyVal, render true π₁ v = render true π₂ v) ∧
+    (∀ vs : List PyVal, renderAll true π₁ vs = renderAll true π₂ vs) :=
+  ⟨render_sorted_eq_val h₁ h₂, render_sorted_eq_all h₁ h₂⟩
+
 end PynguinModel.Repro
